@@ -2,10 +2,12 @@ package synct
 
 import (
 	"fmt"
+	"runtime"
 	"sort"
 	"strconv"
 	"strings"
 	"sync"
+	"sync/atomic"
 
 	"google.golang.org/grpc/internal/transport"
 )
@@ -20,6 +22,12 @@ import (
 //	getb               a consumer goroutine calls get(true) (at most one outstanding)
 //	thr <r>            reader goroutine r calls throttle()
 //	finish | done      finish() | close the done channel
+//	finishrace <it> …  finish() runs in its own goroutine and is HELD inside the first onOrphaned callback
+//	                   of its orphan sweep; while it is held every <it> runs in its own goroutine
+//	                   (p<t|u|h><id> = put, g = get(false)) until it has returned or is parked on c.mu
+//	                   (read off the goroutine dump: no timing guess); then finish() is released.
+//	                   If nothing is orphaned there is no such window: the items run after finish().
+//	                   result: orph=<ids>/<res>,<res>…  (res per item: ok|err|got_<id>|none)
 //
 // Output: <result> blocked=<readers still inside throttle(), sorted> cons=<-|parked|got <id>|err|doneerr>
 // result: ok|err (put)  got <id>|none|err (get)  orph=<ids> (finish)  - (others)
@@ -142,11 +150,110 @@ func (h *controlbufH) op(f []string) string {
 			s[i] = strconv.Itoa(id)
 		}
 		return h.status("orph=" + joinOrDash(s))
+	case "finishrace":
+		return h.status(h.finishRace(f[1:]))
 	case "done":
 		h.v.CloseDone()
 		return h.status("-")
 	}
 	return "bad-op"
+}
+
+// raceItem runs one racing op and returns its result token.
+func (h *controlbufH) raceItem(it string) string {
+	if it == "g" {
+		id, st := h.v.Get(false)
+		if st == "got" {
+			return "got_" + strconv.Itoa(id)
+		}
+		return st
+	}
+	if err := h.v.Put(it[1], atoiS(it[2:])); err != nil {
+		return "err"
+	}
+	return "ok"
+}
+
+// goid returns the current goroutine's id (from its stack header).
+func goid() string {
+	var b [64]byte
+	n := runtime.Stack(b[:], false)
+	f := strings.Fields(string(b[:n]))
+	if len(f) >= 2 {
+		return f[1]
+	}
+	return "?"
+}
+
+// parkedOnMutex reports whether goroutine id is blocked acquiring a sync.Mutex.
+func parkedOnMutex(id string) bool {
+	buf := make([]byte, 1<<20)
+	n := runtime.Stack(buf, true)
+	dump := string(buf[:n])
+	i := strings.Index(dump, "goroutine "+id+" [")
+	if i < 0 {
+		return false
+	}
+	rest := dump[i:]
+	j := strings.Index(rest, "]")
+	if j < 0 {
+		return false
+	}
+	st := rest[:j]
+	return strings.Contains(st, "sync.Mutex.Lock") || strings.Contains(st, "semacquire")
+}
+
+func (h *controlbufH) finishRace(items []string) string {
+	inOrphan := make(chan struct{})
+	resume := make(chan struct{})
+	var once sync.Once
+	h.v.OnOrphan = func(int) { once.Do(func() { close(inOrphan); <-resume }) }
+	finDone := make(chan []int, 1)
+	go func() { finDone <- h.v.Finish() }()
+	res := make([]string, len(items))
+	var ids []int
+	select {
+	case ids = <-finDone:
+		// nothing was orphaned: no window; the items simply come after finish()
+		h.v.OnOrphan = nil
+		for i, it := range items {
+			res[i] = h.raceItem(it)
+		}
+	case <-inOrphan:
+		var wg sync.WaitGroup
+		gids := make([]atomic.Value, len(items))
+		dones := make([]atomic.Bool, len(items))
+		for i, it := range items {
+			wg.Add(1)
+			go func() {
+				defer wg.Done()
+				gids[i].Store(goid())
+				res[i] = h.raceItem(it)
+				dones[i].Store(true)
+			}()
+		}
+		// wait until every racing goroutine has returned or is parked on the buffer's mutex
+		for i := range items {
+			for spin := 0; spin < 200000; spin++ {
+				if dones[i].Load() {
+					break
+				}
+				if g, _ := gids[i].Load().(string); g != "" && parkedOnMutex(g) {
+					break
+				}
+				runtime.Gosched()
+			}
+		}
+		close(resume)
+		ids = <-finDone
+		wg.Wait()
+		h.v.OnOrphan = nil
+	}
+	s := make([]string, len(ids))
+	for i, id := range ids {
+		s[i] = strconv.Itoa(id)
+	}
+	return "orph=" + joinOrDash(s) + "/" + joinOrDash(res)
 }
 
 func (h *controlbufH) Close() {
